@@ -17,7 +17,7 @@ import (
 )
 
 func init() {
-	fw.Register(&fw.Prop{ID: "C06", Run: run, Sharded: true, QuickSecs: 70, ThoroughSecs: 1200})
+	fw.Register(&fw.Prop{ID: "C06", Run: run, Sharded: true, QuickSecs: 100, ThoroughSecs: 1200})
 }
 
 func mkfs() *memfs.FS {
@@ -437,7 +437,7 @@ func run(ctx *fw.Ctx, rep *fw.Report) {
 	} else {
 		scs = append(scs, batch(params{Kinds: []string{"read", "flush-prev", "getattr"}, Tags: []uint16{1, 2, 3}}))
 	}
-	budget := 30 * time.Second
+	budget := 60 * time.Second // the largest quick scenario (3 requests in flight incl. a flush) needs ~35 s
 	if !ctx.Quick() {
 		budget = 4 * time.Minute
 	}
